@@ -123,7 +123,7 @@ Section Layout.
   Lemma mrr_l_FB : l_FB L = bfs (l_er L + 1) (mrr_ftree t). Proof. reflexivity. Qed.
 
   Lemma mrr_wf_root : v <> V_unset /\ exists m dl kids, t = RDir m dl kids /\ m_name m = [0] /\ m_ce m = None /\
-    mrr_wf_node v dt 8 true t = true /\ ForallOrdPairs mrr_apartP (mrr_keys t) /\
+    (exists b, mrr_wf_node v dt b true t = true) /\ ForallOrdPairs mrr_apartP (mrr_keys t) /\
     0 <= r_ptr_ext s /\ mrr_layout_end s <= 4294967296.
   Proof.
     pose proof Hwf as Hw. unfold mrr_wf in Hw.
@@ -131,14 +131,14 @@ Section Layout.
     split; [exact Hv|].
     destruct t as [m len|m dl kids] eqn:Et; [destruct v; discriminate Hw|].
     assert (Hw' : Account.bytes_eqb (m_name m) [0] && negb (is_some (m_ce m)) &&
-                  mrr_wf_node v dt 8 true (RDir m dl kids) && mrr_keys_apart (mrr_keys (RDir m dl kids)) &&
+                  mrr_wf_node v dt (mrr_height (RDir m dl kids)) true (RDir m dl kids) && mrr_keys_apart (mrr_keys (RDir m dl kids)) &&
                   (0 <=? r_ptr_ext s) && (mrr_layout_end s <=? 4294967296) = true)
       by (destruct v; [congruence|exact Hw..]).
     repeat (apply andb_prop in Hw'; destruct Hw' as [Hw' ?]).
     exists m, dl, kids. split; [reflexivity|].
     split; [apply AccountLemmas.bytes_eqb_eq; exact Hw'|].
     split; [destruct (m_ce m); [discriminate|reflexivity]|].
-    split; [assumption|]. split; [apply mrr_keys_apart_fop; assumption|]. lia.
+    split; [eexists; eassumption|]. split; [apply mrr_keys_apart_fop; assumption|]. lia.
   Qed.
 
   Lemma mrr_root_is_dir : r_is_dir t = true.
@@ -147,12 +147,12 @@ Section Layout.
   Lemma mrr_wf_at p c : mrr_node_at t p = Some c ->
     exists b, mrr_wf_node v dt b (mrr_is_root p) c = true.
   Proof.
-    destruct mrr_wf_root as (_ & m & dl & kids & _ & _ & _ & Hw & _). intros H.
-    destruct (mrr_wf_node_at v dt p 8 true t c Hw H) as [b Hb]. exists b. destruct p; exact Hb.
+    destruct mrr_wf_root as (_ & m & dl & kids & _ & _ & _ & (b0 & Hw) & _). intros H.
+    destruct (mrr_wf_node_at v dt p b0 true t c Hw H) as [b Hb]. exists b. destruct p; exact Hb.
   Qed.
 
   Lemma mrr_T_ok : blocks_okb T = true /\ blocks_okb (mrr_ftree t) = true.
-  Proof. destruct mrr_wf_root as (_ & m & dl & kids & _ & _ & _ & Hw & _). exact (mrr_blocks_ok v dt fk 8 true t Hw). Qed.
+  Proof. destruct mrr_wf_root as (_ & m & dl & kids & _ & _ & _ & (b0 & Hw) & _). exact (mrr_blocks_ok v dt fk b0 true t Hw). Qed.
 
   Lemma mrr_start_nonneg : 19 <= st.
   Proof. destruct mrr_wf_root as (_ & _ & _ & _ & _ & _ & _ & _ & _ & H & _). unfold mrr_start. lia. Qed.
